@@ -66,7 +66,7 @@ def main():
         tmp = os.path.join(outdir, "stats.json.tmp")
         with open(tmp, "w") as f:
             json.dump({"evals": res.evals, "nt": sorted(res.nt), "labels": dict(res.labels), "kf": dict(res.kf),
-                       "kf_examples": res.kf_examples, "samples": res.samples, "execs": count[0]}, f, default=str)
+                       "kf_examples": res.kf_examples, "samples": res.samples, "execs": count[0], "discards": dict(res.discards)}, f, default=str)
         os.replace(tmp, os.path.join(outdir, "stats.json"))
 
     def one(data):
@@ -88,6 +88,17 @@ def main():
             sql, edits = C10._mutate(s["toks"][idx], ops, s["toks"])
             lab = "structured"
         if not sql.strip() or len(sql) > 6000:
+            return
+        # the property's input domain: a few hundred tokens, bracket nesting up to 30 (libFuzzer's repeat / copy mutations leave it easily)
+        depth = deepest = 0
+        for ch in sql:
+            if ch in "([":
+                depth += 1
+                deepest = max(deepest, depth)
+            elif ch in ")]":
+                depth = max(0, depth - 1)
+        if deepest > 30 or len(C10.TOK.findall(sql)) > 600:
+            res.discard("fuzz_input_outside_the_size_or_nesting_bound")
             return
         has_meta = any(m in sql for m in ("{{", "{%", "{#", "'", '"', "`", "[", "$", "@", "\x00", "\\"))
         out = C10.analyse(sql, dialect)
